@@ -536,4 +536,154 @@ def serialize (s : Store) (g : Val) (f : Fmt) : Except String (Option (Doc Nat))
         | .ok d' => .ok (some (.graphml d'))
     | .json => .ok (some (.json (toJSON G)))
 
+/-! ## `validate_graph` (shared store)
+
+`names` is `JSON_PROPERTY_NAMES` (read from the repo on every run), `jsonOk` stands for
+"`json.loads` succeeds" (CPython, not modelled). -/
+
+/-- `for f in l: check(f)` stopping at the first exception -/
+def forE {α : Type} (f : α → Except String Unit) : List α → Except String Unit
+  | [] => .ok ()
+  | a :: t =>
+    match f a with
+    | .error e => .error e
+    | .ok _ => forE f t
+
+/-- `x is None` -/
+def Val.isNone : Val → Bool
+  | .other d => d == "null"
+  | _ => false
+
+/-- one iteration of the loop in `_validate_json_property` (`props` = node attributes minus `Class`) -/
+def checkJsonProp (jsonOk : String → Bool) (a : Attrs) (name : String) : Except String Unit :=
+  if name = "Class" then .ok ()
+  else match a.get? name with
+    | none => .ok ()
+    | some (.str t) => if t = "" || t = "None" then .ok () else if jsonOk t then .ok () else .error "import"
+    | some (.other d) => if d = "null" || d = "[]" || d = "{}" then .ok () else .error "type"
+    | some _ => .error "type"                          -- len(int)
+
+/-- `_find_node` -/
+def findNode (s : Store) (g nid : Val) : Except String SNode :=
+  match (s.graphNodes g).filter (fun n => n.attrs.get? "NodeID" == some nid) with
+  | [] => .error "query"
+  | [n] => .ok n
+  | _ => .error "query"
+
+/-- the body of the loop of `_validate_all_json_properties` for the stored node `n` -/
+def checkNode (names : List String) (jsonOk : String → Bool) (s : Store) (g : Val) (n : SNode) : Except String Unit :=
+  match n.attrs.get? "NodeID" with
+  | none => .error "key"
+  | some nid =>
+    match findNode s g nid with
+    | .error e => .error e
+    | .ok m =>
+      if (m.attrs.get? "Class").isNone then .error "key"     -- node_props.pop('Class')
+      else forE (checkJsonProp jsonOk m.attrs) names
+
+def hasClass (a : Attrs) : Bool :=
+  match a.get? "Class" with
+  | none => false
+  | some v => !v.isNone
+
+/-- `NetworkXPropertyGraph.validate_graph()` : JSON properties of the graph's nodes, then `Class`
+    on *every node and edge of the store* (`get_graph` ignores the graph id) -/
+def validate (names : List String) (jsonOk : String → Bool) (s : Store) (g : Val) : Except String Unit :=
+  if (s.graphNodes g).isEmpty then .error "query"
+  else
+    match forE (checkNode names jsonOk s g) (s.graphNodes g) with
+    | .error e => .error e
+    | .ok _ =>
+      if s.nodes.all (fun n => hasClass n.attrs) && s.edges.all (fun e => hasClass e.attrs) then .ok ()
+      else .error "import"
+
+/-! ## The disjoint store (`NetworkXGraphStorageDisjoint`)
+
+`graphs` is a `defaultdict(nx.Graph)` (reading an unknown id creates an empty graph), node ids
+restart at 1 in every graph, `graph_node_ids` is a second `defaultdict`. -/
+
+structure DStore where
+  graphs : List (Val × Graph Nat)
+  counters : List (Val × Nat)
+  deriving DecidableEq, Repr
+
+namespace DStore
+
+def empty : DStore := ⟨[], []⟩
+
+/-- `d[k] = v` -/
+def put {β : Type} : List (Val × β) → Val → β → List (Val × β)
+  | [], k, v => [(k, v)]
+  | (k', v') :: t, k, v => if k' = k then (k, v) :: t else (k', v') :: put t k v
+
+/-- `G.copy()` : nodes in order, edges re-inserted in adjacency-iteration order -/
+def copyGraph (G : Graph Nat) : Graph Nat := { nodes := G.nodes, edges := G.edgesIter }
+
+/-- `extract_graph` : `self.graphs[graph_id].copy()`; an unknown id leaves an empty graph behind -/
+def extract (s : DStore) (g : Val) : Graph Nat × DStore :=
+  match s.graphs.lookup g with
+  | some G => (copyGraph G, s)
+  | none => (⟨[], []⟩, { s with graphs := s.graphs ++ [(g, ⟨[], []⟩)] })
+
+/-- `add_graph` : skipped when a non-empty graph of that id is present; the NodeID check comes
+    before any assignment -/
+def addGraph {κ : Type} [DecidableEq κ] (s : DStore) (g : Val) (G : Graph κ) : Except String Unit × DStore :=
+  match s.graphs.lookup g with
+  | some old => if !old.nodes.isEmpty then (.ok (), s) else go
+  | none => go
+where
+  go : Except String Unit × DStore :=
+    let T := Store.relabelFrom G 1
+    if T.nodes.all (fun p => ((p.2.get? "NodeID").map Val.truthy).getD false) then
+      let T' : Graph Nat := { nodes := T.nodes.map fun p => (p.1, p.2.set "GraphID" g), edges := T.edges }
+      (.ok (), { graphs := put s.graphs g { nodes := T'.nodes, edges := T'.edgesIter },
+                 counters := put s.counters g (T'.nodes.length + 1) })
+    else (.error "import", s)
+
+/-- `add_graph_direct` : the relabelled graph object itself is stored -/
+def addGraphDirect {κ : Type} [DecidableEq κ] (s : DStore) (g : Val) (G : Graph κ) : DStore :=
+  let T := Store.relabelFrom G 1
+  { graphs := put s.graphs g T, counters := put s.counters g (T.nodes.length + 1) }
+
+end DStore
+
+section
+variable {κ : Type} [DecidableEq κ]
+
+def dImportString (s : DStore) (d : Doc κ) (g : Val) : Except String Val × DStore :=
+  match readDoc d with
+  | none => (.error "import", s)
+  | some G =>
+    if G.nodes.isEmpty then (.error "import", s)
+    else match s.addGraph g G with
+      | (.ok _, s') => (.ok g, s')
+      | (.error e, s') => (.error e, s')
+
+def dImportDirect (s : DStore) (d : Doc κ) : Except String Val × DStore :=
+  match getGraphId d with
+  | .error e => (.error e, s)
+  | .ok g =>
+    match readDoc d with
+    | none => (.error "import", s)
+    | some G => (.ok g, s.addGraphDirect g G)
+
+end
+
+/-- the document `serialize_graph` emits for an extracted graph (never `None` here) -/
+def serializeGraph (G : Graph Nat) (f : Fmt) : Except String (Doc Nat) :=
+  match f with
+  | .graphml =>
+    match toGraphML G with
+    | .error e => .error e
+    | .ok d =>
+      match toNeo4j d with
+      | .error e => .error e
+      | .ok d' => .ok (.graphml d')
+  | .json => .ok (.json (toJSON G))
+
+/-- `serialize_graph` on the disjoint store (the extraction may create an empty entry) -/
+def dSerialize (s : DStore) (g : Val) (f : Fmt) : Except String (Doc Nat) × DStore :=
+  let (G, s') := s.extract g
+  (serializeGraph G f, s')
+
 end FimVerif.GraphML
